@@ -34,8 +34,14 @@ def observe(H, g):
     o["lcc"] = get("largest_connected_component", lambda: sorted(iN(n) for n in xgi.largest_connected_component(H)), []) if nodes else []
     o["ncc"] = [[iN(n), get("node_connected_component", lambda n=n: sorted(iN(x) for x in xgi.node_connected_component(H, n)), [])]
                 for n in nodes]
-    o["dist"] = get("shortest_path_length", lambda: [
-        [iN(s), [[iN(t), (-1 if math.isinf(d) else int(d))] for t, d in dd.items()]] for s, dd in xgi.shortest_path_length(H)], [])
+    def rows(pairs):
+        return [[iN(s), [[iN(t), (-1 if math.isinf(d) else int(d))] for t, d in dd.items()]] for s, dd in pairs]
+    # the documented use keeps the rows: dict(xgi.shortest_path_length(H)); reading each row while iterating
+    # must give the same table
+    o["dist"] = get("shortest_path_length", lambda: rows(list(xgi.shortest_path_length(H))), [])
+    lazy = get("shortest_path_length", lambda: rows(xgi.shortest_path_length(H)), [])
+    if lazy != o["dist"]:
+        errs.append("shortest_path_length.rows-read-while-iterating-differ-from-rows-kept")
     o["clust"] = get("clustering_coefficient", lambda: [[iN(n), frac(v)] for n, v in xgi.clustering_coefficient(H).items()], [])
 
     def graph():
